@@ -115,6 +115,10 @@ class GeckoUdpSocket:
     def queue_send(self, protocol_handler: GeckoUdpProtocolHandler, destination: tuple):
         """Queue a message to be sent by the worker thread"""
         with self._lock:
+            # A handler that times out while still waiting in this queue retries
+            # to its last destination, so it must know it before it is first sent
+            if protocol_handler.last_destination is None:
+                protocol_handler.last_destination = destination
             self._send_handlers.append((protocol_handler, destination))
 
     def get_and_increment_sequence_counter(self, command: bool):
